@@ -13,9 +13,10 @@ EXTENDS Encoding, TLC
 
 CONSTANT Mutant
 
-O(c) == [c |-> c, enc |-> c \notin Unreserved, up |-> TRUE]
+O(c) == [c |-> c, enc |-> c \notin Unreserved /\ c \notin RawOnly, up |-> TRUE]
 
-Segs == {<<O("f"), O("o")>>, <<O("b")>>, <<O("f"), O("/"), O("o")>>, <<O("["), O("x")>>, <<O("~")>>}
+Segs == {<<O("f"), O("o")>>, <<O("b")>>, <<O("f"), O("/"), O("o")>>, <<O("["), O("x")>>, <<O("~")>>,
+         <<O("a"), O("+"), O("b")>>, <<O("%"), O("4"), O("1")>>}
 PathsN == {<<a>> : a \in Segs} \cup {<<a, b>> : a \in Segs, b \in Segs}
 
 Lit(v) == [t |-> "lit", v |-> v, n |-> ""]
